@@ -382,6 +382,9 @@ Section Confined.
       apply (entry_reply_good _ _ _ _ _ _ HI He).
     - (* forget *)
       inv4 H. split; [apply forget_one_good; exact HI | exact I].
+    - (* batch_forget *)
+      inv4 H. split; [|exact I]. revert s HI. induction l as [|p l IH]; intros s HI; cbn [fold_left]; [apply good_refl; exact HI|].
+      eapply good_trans; [apply forget_one_good; exact HI|]. apply IH. apply (proj1 (forget_one_good s (fst p) (snd p) HI)).
     - (* getattr *)
       destruct (do_getattr cf s inode handle) as [a|e] eqn:Hg; inv4 H; split; try exact (good_refl _ HI); try exact I.
       cbn. apply (do_getattr_ok _ _ _ _ _ HI Hg).
@@ -537,6 +540,7 @@ Section Confined.
       destruct (check_fd_flags_good _ _ _ _ _ _ (proj1 G1) (Hh _ _ eq_refl) Hcf) as [G2 _].
       assert (G : good s s2) by (eapply good_trans; eassumption).
       destruct (negb (acc_r (hd_acc hd'))); [inv4 H; split; [exact G | exact I]|].
+      destruct (hd_direct hd' && (0 <? size)); [inv4 H; split; [exact G | exact I]|].
       destruct (sys_pread (p_host s2) (hd_host hd') size off); inv4 H; split; try exact G; exact I.
     - (* write *)
       destruct (get_data cf (c_no_open cf) s handle inode O_RDWR) as [[[hid hd]|e] s1] eqn:Hgd;
@@ -548,6 +552,7 @@ Section Confined.
       assert (G3 : good s2 s3).
       { destruct (with_killpriv_cases _ _ _ _ _ _ Hw) as [c1 [sa [c2 [Hb ->]]]].
         destruct (negb (acc_w (hd_acc hd'))); [inversion Hb; subst; exact (good_refl _ (proj1 G2))|].
+        destruct (hd_direct hd' && (0 <? len data)); [inversion Hb; subst; exact (good_refl _ (proj1 G2))|].
         cbn in Hb. destruct (sys_pwrite c1 (p_host s2) (hd_host hd') (hd_append hd') off data) as [r0 h'] eqn:Hc0.
         inversion Hb; subst. apply (good_with_host_c s2 c1 h' (proj1 G2)).
         eapply sys_pwrite_conf; [apply G2 | | exact Hc0]. rewrite Hsame. apply (Hh _ _ eq_refl). }
